@@ -8,7 +8,9 @@ Stage 1  TLC: EncWindow LookAheadGate (outside flush / finish every position is 
 Stage 2/3 the same input and options are run through the real writers under: repeated runs in one process (with dirty
          freed memory left behind in between), every partition script of a seeded family (equal pieces, pieces around the
          look-ahead thresholds, one byte at a time, random), fixed flush points with different partitions in between;
-         MT writers under worker counts 1..4 x random / PCT schedules of the deterministic runtime (mtlib).
+         LZIP writer with a member size above / at / below the dictionary under pieces that do not divide it;
+         MT writers under worker counts 1..4 x random / PCT schedules of the deterministic runtime (mtlib), also with the
+         unit size configured below the dictionary size (raised to it) x pieces below / between / above the two sizes.
          Traced runs are validated by TLC against EncWindow with the real constants (LookAheadGate on real indices).
 Oracle   byte-identical output (digest equality)."""
 from vlib import core
